@@ -75,6 +75,13 @@ class InstBundleElabPass(ElabPass):
                     new_inst.connect(portname, _bundle_ref(conn, signame))
 
             elif isinstance(conn, AnonymousBundle):
+                # Every member of the anonymous bundle must name one of the new instances;
+                # any other would be dropped without notice.
+                extra = [n for n in conn._namespace if n not in signal_names_to_instances]
+                if extra:
+                    msg = f"Invalid connection to `{portname}` of Instance Bundle {instbundle.name}: "
+                    msg += f"`{instbundle.bundle.name}` has no members {extra}"
+                    self.fail(msg)
                 for signame, new_inst in signal_names_to_instances.items():
                     new_inst.connect(portname, conn.get(signame))
 
